@@ -67,7 +67,7 @@ def run(ctx, chk):
     p = envfacts.prop_term(ctx, "nasim.scenarios.scenario", "Scenario", "sensitive_addresses")
     txt = [p.show(t) for _, t in p.returns]
     chk.ob("C06.sensitive-all", "Scenario.sensitive_addresses = list(sensitive_hosts.keys())",
-           txt == ["list(self.scenario_dict['sensitive_hosts'].keys())"], str(txt),
+           txt == ["list(self.scenario_dict['sensitive_hosts'])"], str(txt),
            "nasim/scenarios/scenario.py")
     # ---- step
     s = envfacts.step_shallow(ctx)
@@ -88,8 +88,11 @@ def run(ctx, chk):
         ok = ret[0] == "tuple" and len(ret[1]) == 5
         if ok:
             lim = scn.formula(ret[1][3])
-            L = "self.scenario.scenario_dict.get('step_limit', None)"
-            want = f_and([f_not(A(f"None is {L}")), f_not(A(f"(self.steps+1)<{L}"))])
+            D = "self.scenario.scenario_dict"
+            L = f"{D}['step_limit']"
+            # limit = D.get('step_limit', None): present, not None, and reached
+            want = f_and([A(f"'step_limit' in {D}"), f_not(A(f"None is {L}")),
+                          f_not(A(f"(self.steps+1)<{L}"))])
             lok = f_equiv(lim, want)
             chk.ob("C06.limit", "step: limit flag = step_limit is not None and "
                    "steps_after_increment >= step_limit", lok,
